@@ -223,3 +223,67 @@ func genQueue(r *vh.Rand) *QueueCase {
 	}
 	return c
 }
+
+// Big full state (judged, no model case): a sender holding NS silences and NL log entries (tens of KiB up to MiB of
+// state) serves its full state through the real delegate.LocalState; an EMPTY receiver (late joiner / restarted
+// without data) merges it through the real delegate.MergeRemoteState: afterwards it must cover everything.
+type BigCase struct {
+	Silences int `json:"silences"`
+	Entries  int `json:"entries"`
+}
+
+func runBig(t *testing.T, c *BigCase) (viols []vh.Violation, tags map[string]int) {
+	tags = map[string]int{}
+	lg := slog.New(slog.NewTextHandler(io.Discard, nil))
+	synctest.Test(t, func(t *testing.T) {
+		mk := func() (*cluster.Peer, *nflog.Log, *silence.Silences) {
+			p := cluster.NewPeerForVerif(prometheus.NewRegistry(), lg)
+			nl, err := nflog.New(nflog.Options{Retention: time.Hour, Metrics: prometheus.NewRegistry()})
+			if err != nil {
+				t.Fatal(err)
+			}
+			sl, err := silence.New(silence.Options{Retention: time.Hour, Metrics: prometheus.NewRegistry()})
+			if err != nil {
+				t.Fatal(err)
+			}
+			p.AddState("nfl", nl, prometheus.NewRegistry())
+			p.AddState("sil", sl, prometheus.NewRegistry())
+			return p, nl, sl
+		}
+		a, anl, asl := mk()
+		b, bnl, bsl := mk()
+		ctx := context.Background()
+		now := time.Now()
+		for i := 0; i < c.Silences; i++ {
+			sil := &silpb.Silence{
+				MatcherSets: []*silpb.MatcherSet{{Matchers: []*silpb.Matcher{{Type: silpb.Matcher_EQUAL, Name: "instance", Pattern: fmt.Sprintf("host-%05d.example.org:9100", i)}}}},
+				StartsAt:    timestamppb.New(now), EndsAt: timestamppb.New(now.Add(30 * time.Minute)), Comment: "planned maintenance window", CreatedBy: "verif",
+			}
+			if err := asl.Set(ctx, sil); err != nil {
+				t.Fatal(err)
+			}
+		}
+		for i := 0; i < c.Entries; i++ {
+			if err := anl.Log(receivers[i%2], fmt.Sprintf("{}/{team=\"t%05d\"}:{alertname=\"a\"}", i), []uint64{uint64(i), uint64(i + 1)}, nil, nil, 0); err != nil {
+				t.Fatal(err)
+			}
+		}
+		time.Sleep(time.Second)
+		full := a.LocalStateForVerif(true)
+		tags[fmt.Sprintf("full-state-%d-KiB", len(full)/1024)]++
+		b.MergeRemoteStateForVerif(full, true)
+		nowT := time.Now()
+		for _, pair := range [][2]*stateRT{{{key: "nfl", isNfl: true, log: bnl}, {key: "nfl", isNfl: true, log: anl}}, {{key: "sil", sil: bsl}, {key: "sil", sil: asl}}} {
+			if k := notCovered(pair[0], pair[1], nowT); k != "" {
+				all, _ := contents(pair[0], nowT)
+				viols = append(viols, vh.Violation{Key: "full-state-exchange-incomplete",
+					What: fmt.Sprintf("an empty member merged a %d-byte full state (%d silences, %d log entries) and holds %d items of %q; e.g. %s is missing", len(full), c.Silences, c.Entries, len(all), pair[0].key, k),
+					Case: Case{Kind: "big", Big: c}})
+			}
+		}
+		a.StopForVerif()
+		b.StopForVerif()
+		synctest.Wait()
+	})
+	return viols, tags
+}
